@@ -64,7 +64,7 @@ def gen_case(rng, supervised, large_scale=False):
   if supervised:
     n_c = int(rng.integers(6, 14))
     cons = Constraints(y).positive_negative_pairs(n_c, random_state=seed)
-    pairs, lab = wrap_pairs(X, cons)
+    pairs, lab = gen.documented_pairs(X, cons)
   else:
     idx, lab = gen.pairs_from(rng, X, y, int(rng.integers(6, 16)))
     pairs = X[idx]
